@@ -145,9 +145,10 @@ def _hd_decision_table(rep, p, mod, fd, lp):
                             if isinstance(x, ast.BinOp) and isinstance(x.op, ast.Add):
                                 flat(x.left)
                                 flat(x.right)
-                            elif isinstance(x, ast.Call) and isinstance(x.func, ast.Attribute) and x.func.attr == 'concat' and len(x.args) == 1:
+                            elif isinstance(x, ast.Call) and isinstance(x.func, ast.Attribute) and x.func.attr == 'concat' and len(x.args) >= 1 and not x.keywords:
                                 flat(x.func.value)
-                                flat(x.args[0])
+                                for a_ in x.args:
+                                    flat(a_)
                             else:
                                 parts.append(x)
                         flat(v)
@@ -301,6 +302,19 @@ def rule_hd_table(cx, rep, port):
         return
     aflag, apred, avar = alias_flags[0]
     guarded = '{}isnotNone'.format(avar) in node_text(apred, 200).replace(' ', '')
+    if not guarded:
+        # the sequence may have been cleared of the missing entries beforehand: [x for x in infos if x is not None] / filter(..)
+        seq_ = ex[aflag][2]
+        if isinstance(seq_, ast.Name):
+            ds_ = [d for d in walk_no_nested(fd) if isinstance(d, ast.Assign) and len(d.targets) == 1 and is_name(d.targets[0], seq_.id)]
+            seq_ = ds_[0].value if len(ds_) == 1 else seq_
+        if isinstance(seq_, (ast.ListComp, ast.GeneratorExp)) and len(seq_.generators) == 1 and isinstance(seq_.generators[0].target, ast.Name) and is_name(seq_.elt, seq_.generators[0].target.id):
+            tv = seq_.generators[0].target.id
+            guarded = any('{}isnotNone'.format(tv) in node_text(c_, 100).replace(' ', '') for c_ in seq_.generators[0].ifs)
+        elif isinstance(seq_, ast.Call) and isinstance(seq_.func, ast.Attribute) and seq_.func.attr == 'filter' and seq_.args:
+            fn_ = seq_.args[0]
+            body_ = fn_.body if isinstance(fn_, ast.Lambda) else getattr(getattr(fn_, 'js_function_ref', None), 'body', None)
+            guarded = body_ is not None and 'isnotNone' in node_text(body_ if isinstance(body_, ast.AST) else ast.Module(body=body_, type_ignores=[]), 200).replace(' ', '')
     rep.decide(guarded, 'alias detection', apred, 'alias presence = some column info exists and has an alias', 'the alias test `{}` dereferences missing column infos (None entries stand for unparsable items)'.format(node_text(apred, 80)))
     # without an input header: no header at all unless aliases are used; otherwise both source headers count as empty
     hdr = fd.args.args[0].arg
@@ -388,7 +402,7 @@ def rule_hd_shapes(cx, rep, port='py'):
     loops = [n for n in walk_no_nested(al) if isinstance(n, ast.For)]
     if len(loops) == 1:
         it = loops[0].iter
-        if isinstance(it, ast.Call) and dotted(it.func) == 'ast.walk' and it.args and is_name(it.args[0], root) and not any(isinstance(x, ast.Return) and x.lineno < loops[0].lineno for x in walk_no_nested(al)):
+        if isinstance(it, ast.Call) and dotted(it.func) == 'ast.walk' and it.args and is_name(it.args[0], root) and not any(isinstance(x, ast.Return) and x.pos < loops[0].pos for x in walk_no_nested(al)):
             rep.holds('alias search', loops[0], 'the alias pseudo-call is searched in the whole expression tree')
         elif root in names_in(it):
             rep.violated('alias search', loops[0], 'the alias pseudo-call is searched only in `{}`, not in the whole expression tree: `==` binds tighter than or/and/not/ternary, so for such expressions the alias is not at the top and the column loses its alias name'.format(node_text(it, 80)))
@@ -453,7 +467,7 @@ def rule_hd_startwin(cx, rep, port):
         if len(lookups) != 1:
             return None
         top = lookups[0]
-        while isinstance(getattr(top, 'parent', None), ast.BinOp) and isinstance(top.parent.op, ast.Add):
+        while (isinstance(getattr(top, 'parent', None), ast.BinOp) and isinstance(top.parent.op, ast.Add)) or isinstance(getattr(top, 'parent', None), (ast.FormattedValue, ast.JoinedStr)):
             top = top.parent
         out = {}
         for k, v in zip(d.keys, d.values):
@@ -468,6 +482,11 @@ def rule_hd_startwin(cx, rep, port):
                 if isinstance(e, ast.BinOp) and isinstance(e.op, ast.Add):
                     l_, r_ = ev(e.left), ev(e.right)
                     return None if l_ is None or r_ is None else l_ + r_
+                if isinstance(e, ast.FormattedValue) and e.format_spec is None and e.conversion == -1:
+                    return ev(e.value)
+                if isinstance(e, ast.JoinedStr):
+                    parts = [ev(x) for x in e.values]
+                    return None if any(x is None for x in parts) else ''.join(parts)
                 return None
             t_ = ev(top)
             if t_ is None:
